@@ -285,8 +285,22 @@ func stMethods(m map[string]int64) string {
 	if _, ok := m["GET"]; ok {
 		set = append(set, "HEAD")
 	}
+	if c06Trace {
+		set = append(set, "TRACE")
+	}
 	sort.Strings(set)
 	return strings.Join(set, ",")
+}
+
+// c06Trace: the router of the current history was created with WithTrace (every Allow set and Routes() list names TRACE).
+// Cases run one after the other in a process, and the porcupine check runs before the next case starts.
+var c06Trace bool
+
+func c06Full() string {
+	if c06Trace {
+		return "GET,HEAD,OPTIONS,POST,TRACE"
+	}
+	return "GET,HEAD,OPTIONS,POST"
 }
 
 var c06Model = porcupine.Model{
@@ -485,7 +499,13 @@ func runC06(c *Ctx) {
 	}
 	env.OnBuilder, env.OnMiddleware, env.OnCall = yield, yield, yield
 	x := &c06Run{c: c, env: env, untouchedH: map[string]*mon.Hnd{}}
-	x.r = env.NewRouter("r", mux.WithLock(true), mux.WithInterceptor(yieldDigits, "yield"))
+	c06Trace = r.Chance(1, 3)
+	c06opts := []mux.Option{mux.WithLock(true), mux.WithInterceptor(yieldDigits, "yield")}
+	if c06Trace {
+		c06opts = append(c06opts, mux.WithTrace(env.NewHnd(mon.KTrace, "")))
+		c.Class("history_on_trace_router")
+	}
+	x.r = env.NewRouter("r", c06opts...)
 	x.h = x.r
 	if r.Chance(1, 3) {
 		// the other way to serve a router: through a Group it was added to (a matcher that accepts everything)
@@ -538,6 +558,7 @@ func runC06(c *Ctx) {
 	writers, readers := r.Range(2, 4), r.Range(4, 8)
 	sharedMW := make([]muxMW, 1, 8)
 	sharedMW[0] = mw
+	sharedPx := x.r.Prefix("", env.MW("shared-prefix"))
 	opsPerWriter, opsPerReader := r.Range(30, 70), r.Range(40, 90)
 	var wg sync.WaitGroup
 	methods := []string{"GET", "POST", "PUT", "DELETE"}
@@ -548,6 +569,9 @@ func runC06(c *Ctx) {
 			defer wg.Done()
 			lr := ref.NewR(seed)
 			px := x.r.Prefix("", env.MW(fmt.Sprintf("pw%d", w))) // this writer's facade: the empty prefix with a middleware of its own
+			if w%2 == 1 {
+				px = sharedPx // ... or one facade object used by several writers at once
+			}
 			for i := 0; i < opsPerWriter; i++ {
 				var t cPattern
 				if lr.Chance(1, 2) { // owned by this writer
@@ -672,7 +696,7 @@ func runC06(c *Ctx) {
 								x.violate(fmt.Sprintf("Routes() panicked: %v", p))
 							}
 						}()
-						routes = x.r.Routes()
+						routes = takeRoutes(x.r)
 					}()
 					ret := x.clock.Add(1)
 					if routes != nil {
@@ -684,7 +708,7 @@ func runC06(c *Ctx) {
 							x.record(cEvent{Client: client, In: cInput{Op: "routes", Pat: q.pat}, Out: cOutput{Methods: ms}, Call: call, Return: ret})
 						}
 						for _, u := range c06Untouched {
-							if got := strings.Join(mon.SortedCopy(routes[u.pat]), ","); got != "GET,HEAD,OPTIONS,POST" {
+							if got := strings.Join(mon.SortedCopy(routes[u.pat]), ","); got != c06Full() {
 								x.violate(fmt.Sprintf("Routes()[%q]=%q for an untouched route", u.pat, got))
 							}
 						}
@@ -731,7 +755,30 @@ func runC06(c *Ctx) {
 	}
 	wg.Wait()
 
-	// quiescent again: every request context went back to the pool exactly once
+	// quiescent again: for every toggled pattern the three views agree - Routes(), the Allow header of its OPTIONS answer
+	// and Node().Methods() (a value cached or published at the wrong moment during the history would stay wrong now)
+	{
+		final := takeRoutes(x.r)
+		for _, t := range toggled {
+			o := mon.Do(x.h, mon.Req{Method: "OPTIONS", Path: t.witness("7")})
+			want, live := final[t.pat]
+			if !live {
+				continue
+			}
+			if o.H == nil || o.H.Base.Kind != mon.KOptions || o.NodePattern != t.pat {
+				continue // the witness path is answered by another live pattern (twin group or a literal neighbour)
+			}
+			ws := strings.Join(mon.SortedCopy(want), ",")
+			if got := strings.Join(mon.AllowSet(o.Header.Get("Allow")), ","); got != ws {
+				x.violate(fmt.Sprintf("after the history, with nothing running: Routes()[%q]=%s but its OPTIONS answer carries Allow=%s", t.pat, ws, got))
+			}
+			if got := strings.Join(mon.SortedCopy(o.NodeMethods), ","); got != ws {
+				x.violate(fmt.Sprintf("after the history, with nothing running: Routes()[%q]=%s but Node().Methods()=%s", t.pat, ws, got))
+			}
+		}
+		c.Class("quiescent_views_compared")
+	}
+	// every request context went back to the pool exactly once
 	if a, b := types.NewContext(), types.NewContext(); a == b {
 		x.violate("after the concurrent load the context pool hands out the same context twice (a context was returned to the pool twice)")
 	} else {
@@ -894,7 +941,7 @@ func c06CheckUntouched(x *c06Run, u cPattern, m, v, path string, o *mon.Obs) {
 	case "OPTIONS":
 		if o.H.Base.Kind != mon.KOptions || o.H.Base.Pattern != u.pat {
 			bad("not its OPTIONS handler")
-		} else if got := strings.Join(mon.AllowSet(o.Header.Get("Allow")), ","); got != "GET,HEAD,OPTIONS,POST" {
+		} else if got := strings.Join(mon.AllowSet(o.Header.Get("Allow")), ","); got != c06Full() {
 			bad("Allow=" + got)
 		}
 	default:
@@ -1025,7 +1072,7 @@ func c06InFlight() []Directed {
 				defer func() { done <- recover() }()
 				r.Handle("/b/{id}", env.NewHnd(mon.KRoute, "/b/{id}"), nil, "GET")
 				r.Remove("/b/{id}")
-				_ = r.Routes()
+				_ = takeRoutes(r)
 			}()
 			select {
 			case p := <-done:
@@ -1038,6 +1085,63 @@ func c06InFlight() []Directed {
 				return
 			}
 			c.Class("write_after_root_request_completed")
+		}
+	}})
+	// one method of one route is toggled as fast as possible while eight readers keep asking for the route's Allow set
+	// (OPTIONS, a 405, Routes()): whenever they look, it is one of the two sets the route ever has - with TRACE in both.
+	// A value that is published in two steps, or cached across a change, shows up here or nowhere.
+	out = append(out, Directed{ID: "hot-toggle-allow-views", Run: func(c *Ctx) {
+		n := 30000
+		if c.Tier == "thorough" {
+			n = 600000
+		}
+		env := mon.NewEnv()
+		r := env.NewRouter("hot", mux.WithLock(true), mux.WithTrace(env.NewHnd(mon.KTrace, "")))
+		r.Handle("/h/{id}", env.NewHnd(mon.KRoute, "/h/{id}"), nil, "GET")
+		legal := map[string]bool{"GET,HEAD,OPTIONS,POST,TRACE": true, "GET,HEAD,OPTIONS,TRACE": true}
+		var stop atomic.Bool
+		var looks atomic.Int64
+		var mu sync.Mutex
+		var bad []string
+		var wg sync.WaitGroup
+		for g := 0; g < 8; g++ {
+			wg.Add(1)
+			go func(g int) {
+				defer wg.Done()
+				for i := 0; !stop.Load(); i++ {
+					var got, what string
+					switch (i + g) % 3 {
+					case 0:
+						o := mon.Do(r, mon.Req{Method: "OPTIONS", Path: "/h/7"})
+						got, what = strings.Join(mon.AllowSet(o.Header.Get("Allow")), ","), "Allow of OPTIONS"
+					case 1:
+						o := mon.Do(r, mon.Req{Method: "PUT", Path: "/h/7"})
+						got, what = strings.Join(mon.AllowSet(o.Header.Get("Allow")), ","), "Allow of the 405 answer"
+					default:
+						got, what = strings.Join(mon.SortedCopy(takeRoutes(r)["/h/{id}"]), ","), "Routes()"
+					}
+					looks.Add(1)
+					if !legal[got] {
+						mu.Lock()
+						if len(bad) < 5 {
+							bad = append(bad, what+" = "+got)
+						}
+						mu.Unlock()
+						return
+					}
+				}
+			}(g)
+		}
+		for i := 0; i < n; i++ {
+			r.Handle("/h/{id}", env.NewHnd(mon.KRoute, "/h/{id}"), nil, "POST")
+			r.Remove("/h/{id}", "POST")
+		}
+		stop.Store(true)
+		wg.Wait()
+		c.EvalN(int(looks.Load()))
+		c.ClassN("hot_toggle_allow_views_looked_at", int(looks.Load()))
+		if len(bad) > 0 {
+			c.Violate("while POST of one route was toggled, a reader saw a method set the route never has: "+bad[0], map[string]any{"toggles": n, "looks": looks.Load(), "more": bad})
 		}
 	}})
 	for _, sc := range scens {
